@@ -331,4 +331,99 @@ example :
   (seeded_bit_identical_binary 2 2 _ ([] : List Float) _ _ (by decide)).1
 example : simulateBinary [1/6, 2/3, 3/4, 1] 2 [1/10, 1/12, 9/10, 1/2] = [1, 0, 0, 1] := by decide +kernel
 
+/-! ## regions whose lookup is a per-event scan (quadtree), events on tile edges -/
+
+/-- C20 on a region that locates every event by its own scan of the cells (`QuadtreeGrid2D.get_index_of`): permuting
+the stored events permutes the located (cell, bin) pairs and the cell-index list, and leaves the four gridded arrays
+unchanged — wherever the events lie, tile edges and corners included. -/
+theorem lookup_perm (bounds : List Box) (nCells nBins : Nat) {raw raw' : List RawEvent} (h : raw ~ raw') :
+    locateEvents bounds raw ~ locateEvents bounds raw' ∧
+    getIndexOf bounds (raw.map Prod.fst) ~ getIndexOf bounds (raw'.map Prod.fst) ∧
+    counts nCells nBins (locateEvents bounds raw) = counts nCells nBins (locateEvents bounds raw') := by
+  have h1 : locateEvents bounds raw ~ locateEvents bounds raw' := h.filterMap _
+  exact ⟨h1, (h.map Prod.fst).filterMap _, counts_perm nCells nBins h1⟩
+
+/-- the cell an event is counted in does not depend on the events stored before (or after) it -/
+theorem lookup_no_memory (bounds : List Box) (pre post : List RawEvent) (r : RawEvent) :
+    locateEvents bounds (pre ++ r :: post) =
+      locateEvents bounds pre ++ ((findLocation bounds r.1.1 r.1.2).map (fun c => (c, r.2))).toList ++
+        locateEvents bounds post := by
+  rw [locateEvents_append]
+  have : locateEvents bounds (r :: post) =
+      ((findLocation bounds r.1.1 r.1.2).map (fun c => (c, r.2))).toList ++ locateEvents bounds post := by
+    unfold locateEvents
+    cases hf : findLocation bounds r.1.1 r.1.2 <;> simp [List.filterMap_cons, hf]
+  rw [this, List.append_assoc]
+
+/-- `_find_location` returns the FIRST cell whose half-open box holds the point, and only such a cell -/
+theorem lookup_first_hit (bounds : List Box) (lon lat : Rat) (i : Nat) (h : findLocation bounds lon lat = some i) :
+    (∃ b, bounds[i]? = some b ∧ inBox b lon lat = true) ∧
+    ∀ j, j < i → ∀ b', bounds[j]? = some b' → inBox b' lon lat = false :=
+  findLocation_spec bounds lon lat i h
+
+/-- tile edges: the east and the north edge of a box are outside it, the west and the south edge inside (so an event
+on the edge shared by two tiles belongs to the eastern / northern one, and a corner to the north-eastern one) -/
+theorem lookup_edge (b : Box) (lon lat : Rat) :
+    inBox b b.east lat = false ∧ inBox b lon b.north = false ∧
+    (b.west < b.east → b.south ≤ lat → lat < b.north → inBox b b.west lat = true) ∧
+    (b.south < b.north → b.west ≤ lon → lon < b.east → inBox b lon b.south = true) ∧
+    (b.west < b.east → b.south < b.north → inBox b b.west b.south = true) := by
+  refine ⟨?_, ?_, ?_, ?_, ?_⟩
+  · simp [inBox]
+  · simp [inBox]
+  · intro h1 h2 h3; simp [inBox, h1, h2, h3]
+  · intro h1 h2 h3; simp [inBox, h1, h2, h3]
+  · intro h1 h2; simp [inBox, h1, h2]
+
+/-- two tiles side by side, an event exactly on the shared edge (lon 0), once stored after an event of the western tile
+and once before it: it is counted in the eastern tile both times -/
+example : locateEvents [⟨-90, 0, 0, 66⟩, ⟨0, 0, 90, 66⟩] [((-45, 10), 1), ((0, 10), 0)] = [(0, 1), (1, 0)] ∧
+    locateEvents [⟨-90, 0, 0, 66⟩, ⟨0, 0, 90, 66⟩] [((0, 10), 0), ((-45, 10), 1)] = [(1, 0), (0, 1)] := by
+  decide +kernel
+/-- a corner shared by four tiles belongs to the north-eastern one; a point outside every tile is dropped -/
+example : getIndexOf [⟨-90, -66, 0, 0⟩, ⟨0, -66, 90, 0⟩, ⟨-90, 0, 0, 66⟩, ⟨0, 0, 90, 66⟩]
+    [(0, 0), (-1, -1), (90, 0), (0, -66)] = [3, 0, 1] := by decide +kernel
+example : counts 2 2 (locateEvents [⟨-90, 0, 0, 66⟩, ⟨0, 0, 90, 66⟩] [((-45, 10), 1), ((0, 10), 0), ((0, 0), 1)]) =
+    counts 2 2 (locateEvents [⟨-90, 0, 0, 66⟩, ⟨0, 0, 90, 66⟩] [((0, 0), 1), ((0, 10), 0), ((-45, 10), 1)]) :=
+  (lookup_perm _ 2 2 (by decide)).2.2
+
+/-! ## one catalog object re-ordered in place between evaluations -/
+
+/-- C20 for a session on ONE catalog object: after any sequence of in-place re-orderings of its stored rows
+(`catalog.catalog[:] = catalog.catalog[σ]`, `.sort(order=…)`, shuffle, re-assignment through the setter — each an index
+permutation σ of the rows) the object holds a permutation of the original rows, so every gridded array — hence every
+statistic that is a function of them — equals the one of the first evaluation. -/
+theorem inplace_reorder_counts (nCells nBins : Nat) (ev : List Event) (steps : List (List Nat))
+    (h : ∀ σ ∈ steps, σ ~ List.range ev.length) :
+    reorderSeq ev steps ~ ev ∧ counts nCells nBins (reorderSeq ev steps) = counts nCells nBins ev := by
+  have hp := reorderSeq_perm steps ev h
+  exact ⟨hp, counts_perm nCells nBins hp⟩
+
+/-- every evaluation of the session (before the first re-ordering, between two of them, after the last) sees the same
+gridded arrays; with the lookup done afresh on the rows held at the time of the call, also from raw coordinates -/
+theorem inplace_session (nCells nBins : Nat) (ev : List Event) (steps : List (List Nat))
+    (h : ∀ σ ∈ steps, σ ~ List.range ev.length) :
+    ∀ v ∈ sessionViews ev steps, counts nCells nBins v = counts nCells nBins ev := by
+  intro v hv
+  unfold sessionViews at hv
+  obtain ⟨k, _, rfl⟩ := List.mem_map.mp hv
+  exact (inplace_reorder_counts nCells nBins ev (steps.take k)
+    (fun σ hσ => h σ (List.mem_of_mem_take hσ))).2
+
+theorem inplace_session_lookup (bounds : List Box) (nCells nBins : Nat) (raw : List RawEvent) (steps : List (List Nat))
+    (h : ∀ σ ∈ steps, σ ~ List.range raw.length) :
+    ∀ v ∈ sessionViews raw steps,
+      counts nCells nBins (locateEvents bounds v) = counts nCells nBins (locateEvents bounds raw) := by
+  intro v hv
+  unfold sessionViews at hv
+  obtain ⟨k, _, rfl⟩ := List.mem_map.mp hv
+  exact (lookup_perm bounds nCells nBins
+    (reorderSeq_perm (steps.take k) raw (fun σ hσ => h σ (List.mem_of_mem_take hσ)))).2.2
+
+example : sessionViews [(0, 1), (2, 0), (1, 1)] [[2, 0, 1], [1, 0, 2]] =
+    [[(0, 1), (2, 0), (1, 1)], [(1, 1), (0, 1), (2, 0)], [(0, 1), (1, 1), (2, 0)]] := by decide
+example : ∀ v ∈ sessionViews [(0, 1), (2, 0), (1, 1)] [[2, 0, 1], [1, 0, 2]],
+    counts 3 2 v = counts 3 2 [(0, 1), (2, 0), (1, 1)] :=
+  inplace_session 3 2 _ _ (by decide)
+
 end PermInv
